@@ -155,7 +155,7 @@ PLANS["C18"]["quick"].append(("race", {"n": 20}))
 PLANS["C18"]["thorough"].append(("race", {"n": 2000}))
 
 # ---------------- regulator ----------------
-REG_RULE = ("random histories of AddPlayers (batches 1-52), SetStatus, SyncState with eliminations, delayed and immediate "
+REG_RULE = ("random histories of AddPlayers (batches 1-52), SetStatus (forward, repeated and skipping), SyncState with eliminations, delayed and immediate "
             "ReleasePlayers, syncs of unknown tables, registrations after the deadline, under settings 2<=min<=max<=10 "
             "(half at 9/6), each ending in a settle phase (sweeps without registrations or eliminations); the table "
             "picked by each dispatch (Go map order) is observed and fed to the model; exhaustive = initial allocation for "
@@ -172,8 +172,9 @@ def reg_plan():
         "rule": REG_RULE,
         "assumptions": ["callbacks succeed (tables follow the regulator's instructions)",
                         "player counts below 2^26 (float comparisons equal rational ones)",
-                        "each call eliminates at most the players present"],
-        "trusted_base": ["model: ModelReg.v; regulator/verif_hooks.go (read-only snapshot, build tag verif)"],
+                        "each call eliminates at most the players present",
+                        "the competition status never moves backwards (pending, normal, after the registration deadline are stages of a life cycle)"],
+        "trusted_base": ["model: ModelReg.v and the system machine ModelSys.v (regulator with instruction-following tables, stepped beside the harness environment and compared with it); regulator/verif_hooks.go (read-only snapshot, build tag verif)"],
     }
 
 
